@@ -261,7 +261,12 @@ class Driver:
                     rec['delivered'] = False
             elif k == 'R':
                 futs = self.store.pending.get(q) or []
-                if futs:
+                if futs and futs[0].done():
+                    # the broker itself cancelled the lookup it had asked the store for: nothing to complete
+                    futs.pop(0)
+                    rec['delivered'] = False
+                    rec['cancelled_by_broker'] = True
+                elif futs:
                     f = futs.pop(0)
                     if ev[2] == 'raise':
                         f.set_exception(RuntimeError('lookup failed'))
@@ -368,7 +373,8 @@ class Driver:
                            rpaused=t.rpaused, open=c in self.server.connections, ak=c.ak,
                            active=sorted(c.active_subscriptions),
                            registered=sorted(ch for ch, lst in self.server.subscriptions.items() if any(x is c for x in lst)),
-                           closed_at=t.closed_at)
+                           closed_at=t.closed_at,
+                           store_pending=sum(1 for fs in self.store.pending.values() for f in fs if not f.done()))
         return snap
 
     def gauges(self):
@@ -735,6 +741,8 @@ def gen_history(rng, nconn=None, async_=False, profile='mixed', table=None, nops
         return gen_reauth_stale(rng, async_=async_)
     if scenario == 'store_change':
         return gen_store_change(rng)
+    if scenario == 'same_ident_inflight':
+        return gen_same_ident_inflight(rng)
     table = table if table is not None else rng.choice(DB_TABLES)
     nconn = nconn or rng.choice([2, 2, 3, 3, 4, 5])
     name = rng.choice(['hpfeeds', 'b', 'bröker'])
@@ -1014,6 +1022,56 @@ def gen_store_change(rng):
         def __init__(self, q):
             self.q, self.role = q, 'adversarial' if q in (2, 3, 0) else 'benign'
     return case, [R(q) for q in range(nq)]
+
+
+def gen_same_ident_inflight(rng):
+    """directed history (asynchronous store): several connections send OP_AUTH for the SAME ident, each with requests
+    pipelined behind it, while the lookups are in flight; some of them go away before the verdict; the lookups complete
+    in a random order relative to everything else; a listener holds the channels."""
+    table = DB_TABLES[0]
+    name = 'hpfeeds'
+    n = rng.choice([2, 3, 3, 4])
+    nonces = [bytes(rng.randrange(256) for _ in range(4)) for _ in range(n + 1)]
+    who = rng.choice(['alice', 'bob', 'ali'])
+    row = table[who]
+    L = n                                   # listener index
+    lst = 'alice' if who != 'alice' else 'bob'
+    events = [['C', q, jbytes(nonces[q])] for q in range(n + 1)]
+    events.append(['D', L, jbytes(auth_frame(lst, digest(nonces[L], table[lst][0])))])
+    events.append(gen_lookup(rng, table, L, lst))
+    for c in table[lst][2]:
+        events.append(['D', L, jbytes(P.msgsubscribe(lst, c))])
+    todo = []
+    for q in range(n):
+        fr = [auth_frame(who, digest(nonces[q], row[0]))]
+        for _ in range(rng.randint(1, 3)):
+            c = rng.choice(row[1] + row[2])
+            fr.append(rng.choice([P.msgpublish(who, c, gen_payload(rng)), P.msgsubscribe(who, c)]))
+        if rng.random() < 0.5:
+            events.append(['D', q, jbytes(b''.join(fr))])
+        else:
+            k = rng.randint(1, len(fr))
+            events.append(['D', q, jbytes(b''.join(fr[:k]))])
+            if fr[k:]:
+                todo.append(['D', q, jbytes(b''.join(fr[k:]))])      # arrives while reading is paused: not delivered
+        todo.append(['R', q, 'row', [jbytes(row[0].encode()), [jbytes(c.encode()) for c in row[1]], [jbytes(c.encode()) for c in row[2]]]]
+                    if rng.random() < 0.8 else rng.choice([['R', q, 'none'], ['R', q, 'raise']]))
+        if rng.random() < 0.4:
+            todo.append(rng.choice([['L', q], ['L', q], ['E', q]]))
+    rng.shuffle(todo)
+    events += todo
+    # afterwards the survivors publish once more, and whatever arrived while paused is delivered now
+    for q in range(n):
+        c = rng.choice(row[1])
+        events.append(['D', q, jbytes(P.msgpublish(who, c, gen_payload(rng)))])
+        if rng.random() < 0.3:
+            events.append(gen_lookup(rng, table, q, who))
+    case = dict(name=jbytes(name.encode()), db=jdb(table), async_=True, events=events)
+
+    class R:
+        def __init__(self, q):
+            self.q, self.role = q, 'benign'
+    return case, [R(q) for q in range(n + 1)]
 
 
 def gen_lookup(rng, table, q, ident=None):
